@@ -69,6 +69,7 @@ structure Frame where
   claimed : List Nat              -- once registrations this publish claimed (rids)
   handler : Option Reg := none    -- the handler currently running in this activation
   body : List (Nat × Nat) := []   -- what is left of its body
+  snapshot : List Reg := []       -- ghost: the snapshot this activation took
 deriving DecidableEq, Repr
 
 /-- what an async goroutine was started for -/
@@ -98,6 +99,11 @@ structure Shared where
   tickets : List (Nat × Nat) := []    -- rid ↦ tickets handed out
   serving : List (Nat × Nat) := []    -- rid ↦ ticket being served
   nextSpawn : Nat := 1
+  -- ghost state (never read by `step`; what the theorems talk about)
+  removed : Nat := 0                  -- registrations deleted so far (Unsubscribe, Clear, once-retirement)
+  enteredOnce : List Nat := []        -- rids of Once registrations whose handler was entered
+  issued : List (Nat × Nat) := []     -- (rid, ticket) in the order tickets were handed out
+  turns : List (Nat × Nat) := []      -- (rid, ticket) in the order turns were taken
 deriving Repr
 
 /-- observable events, tagged by the scheduler with the thread that produced them -/
@@ -123,6 +129,10 @@ def setKV (l : List (Nat × Nat)) (k v : Nat) : List (Nat × Nat) :=
 def Shared.live (s : Shared) : Ctx → Bool
   | .bg => true
   | .shared k => !s.cancelled.contains k
+
+/-- ghost: a handler is entered -/
+def Shared.noteEnter (s : Shared) (r : Reg) : Shared :=
+  if r.once then { s with enteredOnce := r.rid :: s.enteredOnce } else s
 
 def eraseFirst (p : Reg → Bool) : List Reg → List Reg
   | [] => []
@@ -170,14 +180,17 @@ def afterClaim (sh : Shared) (th : Thread) (f : Frame) (fs : List Frame) (r : Re
       let n := sh.nextSpawn
       let t := lookupD sh.tickets r.rid
       let sh := { sh with inflight := sh.inflight + 1, nextSpawn := n + 1,
-                          tickets := if r.seq then setKV sh.tickets r.rid (t + 1) else sh.tickets }
+                          tickets := if r.seq then setKV sh.tickets r.rid (t + 1) else sh.tickets,
+                          issued := if r.seq then sh.issued ++ [(r.rid, t)] else sh.issued }
       ⟨sh, { th with frames := f :: fs, pc := .spawn r n t }, [], obs⟩
     else if !sh.live f.ctx then dispatch sh th f fs obs fuel
     else if r.seq then ⟨sh, { th with frames := f :: fs, pc := .lock r false }, [], obs⟩
-    else ⟨sh, { th with frames := { f with handler := some r, body := r.body } :: fs, pc := .enter r }, [], obs ++ [.enter r.rid f.ty f.v false]⟩
+    else ⟨sh.noteEnter r, { th with frames := { f with handler := some r, body := r.body } :: fs, pc := .enter r }, [], obs ++ [.enter r.rid f.ty f.v false]⟩
 end
 
-def stepFuel : Nat := 100000
+/-- recursion budget of the dispatch loop: every snapshot entry costs at most three calls, so
+this always suffices (the Go loop terminates because the snapshot is finite) -/
+def fuelFor (f : Frame) : Nat := 3 * f.rest.length + 4
 
 /-- is the thread able to move? (`false` = finished or blocked) -/
 def enabled (sh : Shared) (th : Thread) : Bool :=
@@ -194,7 +207,8 @@ def enabled (sh : Shared) (th : Thread) : Bool :=
 
 /-- a new activation of PublishContext: the snapshot is taken under the read lock -/
 def newFrame (sh : Shared) (ty v : Nat) (ctx : Ctx) : Frame :=
-  { ty := ty, v := v, ctx := ctx, rest := sh.regs.filter (fun r => r.ty == ty), claimed := [] }
+  { ty := ty, v := v, ctx := ctx, rest := sh.regs.filter (fun r => r.ty == ty), claimed := [],
+    snapshot := sh.regs.filter (fun r => r.ty == ty) }
 
 /-- the (handler-only) activation an async goroutine runs its handler in -/
 def jobFrame (j : Job) (running : Bool) : Frame :=
@@ -226,38 +240,41 @@ def step (sh : Shared) (th : Thread) : Option Out :=
           some ⟨{ sh with regs := sh.regs ++ [r], nextRid := sh.nextRid + 1 }, th, [], [.ret]⟩
         | .unsubscribe ty hid =>
           let found := sh.regs.any (fun r => r.ty == ty && r.hid == hid)
-          some ⟨{ sh with regs := eraseFirst (fun r => r.ty == ty && r.hid == hid) sh.regs }, th, [], [.unsub ty hid found, .ret]⟩
-        | .clear ty => some ⟨{ sh with regs := sh.regs.filter (fun r => r.ty != ty) }, th, [], [.ret]⟩
+          let regs := eraseFirst (fun r => r.ty == ty && r.hid == hid) sh.regs
+          some ⟨{ sh with regs := regs, removed := sh.removed + (sh.regs.length - regs.length) }, th, [], [.unsub ty hid found, .ret]⟩
+        | .clear ty =>
+          let regs := sh.regs.filter (fun r => r.ty != ty)
+          some ⟨{ sh with regs := regs, removed := sh.removed + (sh.regs.length - regs.length) }, th, [], [.ret]⟩
         | .cancel k => some ⟨{ sh with cancelled := k :: sh.cancelled }, th, [], [.ret]⟩
         | .count ty => some ⟨sh, th, [], [.count ty (sh.regs.filter (fun r => r.ty == ty)).length, .ret]⟩
         | .wait => some ⟨sh, th, [], [.ret]⟩
         | .publish ty v ctx => some ⟨sh, { th with frames := [newFrame sh ty v ctx], pc := .snap }, [], []⟩
   | .snap =>
     match th.frames with
-    | f :: fs => some (dispatch sh th f fs [] stepFuel)
+    | f :: fs => some (dispatch sh th f fs [] (fuelFor f))
     | [] => none
   | .filter r =>
     match th.frames with
     | f :: fs =>
-      if r.accepts f.v then some (afterFilter sh th f fs r [.filt r.rid f.v true] stepFuel)
-      else some (dispatch sh th f fs [.filt r.rid f.v false] stepFuel)
+      if r.accepts f.v then some (afterFilter sh th f fs r [.filt r.rid f.v true] (fuelFor f))
+      else some (dispatch sh th f fs [.filt r.rid f.v false] (fuelFor f))
     | [] => none
   | .claimed r =>
     match th.frames with
-    | f :: fs => some (afterClaim sh th f fs r [] stepFuel)
+    | f :: fs => some (afterClaim sh th f fs r [] (fuelFor f))
     | [] => none
   | .spawn r n t =>
     match th.frames with
     | f :: fs =>
       -- the `go` statement: the goroutine exists and parks at "async.start"; the publisher goes on
       let job : Job := ⟨r, f.ty, f.v, f.ctx, t, n⟩
-      let o := dispatch sh th f fs [.spawned n] stepFuel
+      let o := dispatch sh th f fs [.spawned n] (fuelFor f)
       some { o with new := [{ pc := .astart, job := some job }] ++ o.new }
     | [] => none
   | .lock r async =>
     match th.frames with
     | f :: fs =>
-      some ⟨{ sh with held := r.rid :: sh.held }, { th with frames := { f with handler := some r, body := r.body } :: fs, pc := .enter r }, [],
+      some ⟨{ sh.noteEnter r with held := r.rid :: sh.held }, { th with frames := { f with handler := some r, body := r.body } :: fs, pc := .enter r }, [],
             [.enter r.rid f.ty f.v async]⟩
     | [] => none
   | .enter r =>
@@ -277,13 +294,14 @@ def step (sh : Shared) (th : Thread) : Option Out :=
       -- async goroutine: release the turn, arrive at "async.end"
       let sh := if j.reg.seq then { sh with serving := setKV sh.serving j.reg.rid (lookupD sh.serving j.reg.rid + 1) } else sh
       some ⟨sh, { th with frames := [], pc := .aend }, [], []⟩
-    | _, f :: fs => some (dispatch sh th { f with handler := none, body := [] } fs [] stepFuel)
+    | _, f :: fs => some (dispatch sh th { f with handler := none, body := [] } fs [] (fuelFor f))
     | _, [] => none
   | .retire =>
     match th.frames with
     | f :: fs =>
       let regs := f.claimed.foldl (fun regs c => eraseFirst (fun h => h.rid == c) regs) sh.regs
-      some ⟨{ sh with regs := regs }, { th with frames := { f with claimed := [] } :: fs, pc := .retired }, [], []⟩
+      some ⟨{ sh with regs := regs, removed := sh.removed + (sh.regs.length - regs.length) },
+            { th with frames := { f with claimed := [] } :: fs, pc := .retired }, [], []⟩
     | [] => none
   | .retired =>
     match th.frames with
@@ -294,16 +312,40 @@ def step (sh : Shared) (th : Thread) : Option Out :=
     | some j =>
       if j.reg.seq then some ⟨sh, { th with pc := .turn }, [], []⟩
       else if !sh.live j.ctx then some ⟨sh, { th with pc := .aend }, [], []⟩
-      else some ⟨sh, { th with frames := [jobFrame j true], pc := .enter j.reg }, [], [.enter j.reg.rid j.ty j.v true]⟩
+      else some ⟨sh.noteEnter j.reg, { th with frames := [jobFrame j true], pc := .enter j.reg }, [], [.enter j.reg.rid j.ty j.v true]⟩
     | none => none
   | .turn =>
     match th.job with
     | some j =>
+      let sh := { sh with turns := sh.turns ++ [(j.reg.rid, j.ticket)] }
       if !sh.live j.ctx then
         -- skipped, but the turn is passed on (deferred releaseTurn)
         some ⟨{ sh with serving := setKV sh.serving j.reg.rid (lookupD sh.serving j.reg.rid + 1) }, { th with pc := .aend }, [], []⟩
       else some ⟨sh, { th with frames := [jobFrame j false], pc := .lock j.reg true }, [], []⟩
     | none => none
   | .aend => some ⟨{ sh with inflight := sh.inflight - 1 }, { th with pc := .done }, [], [.fin]⟩
+
+/-! ### the system: shared state and all threads -/
+
+structure Sys where
+  sh : Shared := {}
+  ths : List Thread := []
+
+/-- thread number `i` takes one step (`none`: no such thread, finished, or blocked) -/
+def Sys.stepAt (s : Sys) (i : Nat) : Option Sys :=
+  match s.ths[i]? with
+  | none => none
+  | some th =>
+    match step s.sh th with
+    | none => none
+    | some o => some { sh := o.sh, ths := s.ths.set i o.th ++ o.new }
+
+/-- the system a test program starts from: one thread per program, empty bus -/
+def initSys (progs : List (List Op)) : Sys := { ths := progs.map (fun p => { prog := p }) }
+
+/-- every state some schedule can reach -/
+inductive Reachable (progs : List (List Op)) : Sys → Prop
+  | init : Reachable progs (initSys progs)
+  | step {s s' : Sys} {i : Nat} : Reachable progs s → s.stepAt i = some s' → Reachable progs s'
 
 end Ebu.Conc
